@@ -23,7 +23,7 @@ tvars == <<mvars, l, pid, hid, stepno, viol>>
 
 Ev == Rec[l]
 
-EmptyProg == [nodes |-> <<>>, loops |-> <<>>, nsrc |-> 0, nsink |-> 0, ord |-> <<>>]
+EmptyProg == [nodes |-> <<>>, loops |-> <<>>, nsrc |-> 0, nsink |-> 0, ord |-> <<>>, pairs |-> <<>>]
 
 TInit ==
     /\ l = 1 /\ pid = 0 /\ hid = 0 /\ stepno = 0 /\ viol = {}
@@ -43,6 +43,14 @@ StepBroken(ev, mouts, mtick0) ==
        \cup (IF ev.ta - ev.tb # ev.nticks THEN {"tick-counter-not-plus-one-per-tick"} ELSE {})
        \cup (IF nreal # nmod THEN {"ticks-executed"} ELSE {})
        \cup (IF bad # {} THEN {"outputs"} ELSE {})
+       \* C22, side against side: prog.pairs lists sinks <<push placed, pull placed>> of the SAME
+       \* operator fed with identical input; what the real code delivered to the two must agree
+       \* tick by tick (independently of the model)
+       \cup (IF \E i \in 1..Len(prog.pairs) : \E t \in 1..nreal :
+                 LET a == ev.ticks[t][prog.pairs[i][1]]
+                     b == ev.ticks[t][prog.pairs[i][2]]
+                 IN IF prog.ord[prog.pairs[i][1]] /\ prog.ord[prog.pairs[i][2]] THEN a # b ELSE ~BagEq(a, b)
+             THEN {"pull-vs-push-outputs-differ"} ELSE {})
        \* calibration steps carry the outputs asserted by the repository's own tests: the MODEL
        \* must reproduce them (a failure here is a fault of the spec, reported separately)
        \cup (IF "expect" \in DOMAIN ev
